@@ -492,7 +492,7 @@ func (w *World) applyActor(op *Op) {
 			}
 		}
 		fs.Touch(p)
-	case "del-art", "trunc-art", "strip-key", "strip-cert", "strip-csr", "strip-hash", "tamper-hash", "bad-hash", "key-to-csr", "replace-art", "prepend-art", "append-art":
+	case "del-art", "trunc-art", "strip-key", "strip-cert", "strip-csr", "strip-hash", "tamper-hash", "bad-hash", "key-to-csr", "replace-art", "prepend-art", "append-art", "key-above-hash":
 		e, ok := w.Ents[op.Ent]
 		if !ok {
 			return
@@ -559,6 +559,25 @@ func (w *World) artifactOp(op *Op, e *EntitySpec) {
 	case "bad-hash":
 		if hashLineRx.Match(data) {
 			fs.Put(p, hashLineRx.ReplaceAll(data, []byte("#HASH:%%not*base64%%\n")))
+		}
+	case "key-above-hash":
+		// the key or request block moved to the top of the file, above the hash line: same content,
+		// other order (the operator swapped the key by hand and pasted the new one first)
+		pf := splitPEM(data)
+		var top, rest []byte
+		last := 0
+		for _, b := range pf.Blocks {
+			rest = append(rest, data[last:b.Start]...)
+			if isKeyType(b.Type) || isCsrType(b.Type) {
+				top = append(top, data[b.Start:b.End]...)
+			} else {
+				rest = append(rest, data[b.Start:b.End]...)
+			}
+			last = b.End
+		}
+		rest = append(rest, data[last:]...)
+		if len(top) > 0 {
+			fs.Put(p, append(top, rest...))
 		}
 	case "prepend-art":
 		fs.Put(p, append(w.opBytes(op), data...))
